@@ -104,7 +104,8 @@ def r2(ctx, eff):
     ctx.floor("R2", n_conn, 2, "connections opened by the creator")
     # no other removal of files in the import call graph, except temp files named by tempfile
     cd = require_func(ctx, "create.create_db")
-    own = {init.qual} | {g.qual for g in __import__("gffsa.util", fromlist=["closure"]).closure(ctx, init)}
+    # everything the constructor reaches was evaluated above (whatever module it lives in)
+    own = {init.qual} | {g.qual for g in __import__("gffsa.util", fromlist=["closure"]).closure(ctx, init, depth=4, cross_module=True, private_only=False)}
     for e in eff.transitive(cd.qual):
         if e[1] == "FS" and e[2] in ("unlink", "move") and e[0] not in own:
             call = e[4]
@@ -112,6 +113,31 @@ def r2(ctx, eff):
             ok = "dbfn" not in tgt
             ctx.ob("R2", ok, "apart from the force block, nothing in an import removes or moves the database file (temp-file removal is C20's)",
                    node=call, func=ctx.proj.funcs[e[0]], sig="%s removes %s" % (e[0].split(".")[-1], tgt), nontrivial=False)
+
+
+def r2_files(ctx):
+    """create_db evaluated end to end on the in-memory file system, force x (a file is already at the target path or not):
+    which files are gone afterwards."""
+    from . import scen
+    cd = require_func(ctx, "create.create_db")
+    text = "chr1\tsrc\tgene\t100\t900\t.\t+\t.\tID=g1\nchr1\tsrc\tmRNA\t100\t900\t.\t+\t.\tID=t1;Parent=g1\n"
+    for force in (False, True):
+        for there in (False, True):
+            it = scen.text_interp(ctx)
+            if there:
+                it.vfs = {"old.db": ["previous database"]}
+            it, db, t = scen.create_db_from_text(ctx, text, path="in.gff3", it=it, dbfn="old.db", force=force)
+            label = "force=%s, target %s" % (force, "exists" if there else "absent")
+            if not scen.returned(ctx, t, "create_db (%s)" % label, func=cd, rule="R2"):
+                continue
+            gone = [p for p in it.unlinked if p in ("old.db", "in.gff3")]
+            want = ["old.db"] if (force and there) else []
+            ctx.ob("R2", gone == want, "of the caller's files an import removes the old database under force and nothing else (input and, without force, "
+                   "the target stay)", func=cd, sig="%s: removed %s" % (label, gone), nontrivial=bool(want))
+            if want:
+                ev = [e[0] if e[0] == "unlink" else "connect" for e in t.events if (e[0] == "unlink" and e[1] == "old.db") or
+                      (e[0] == "call-opaque" and getattr(e[1], "name", None) == "sqlite3.connect") or e[0] == "connect"]
+                ctx.ob("R2", ev[:1] == ["unlink"] or "connect" not in ev, "the removal precedes the connection", func=cd, sig="%s: %s" % (label, ev[:3]), nontrivial=False)
 
 
 _VERB_CACHE = {}
@@ -217,4 +243,5 @@ def check(ctx):
     eff = Effects(ctx)
     r1(ctx)
     r2(ctx, eff)
+    r2_files(ctx)
     r3(ctx, eff)
